@@ -139,6 +139,7 @@ func c03Scenarios(tier string) []engine.Scenario {
 		mods  []string
 		fa    string // "", totp, sms
 		oauth bool
+		after int // 0 = LockAfter 2; -1 = LockAfter explicitly 0 (the library then locks at the first failure, as with 1)
 	}
 	base := func(order string) []string {
 		if order == "lc" {
@@ -153,21 +154,23 @@ func c03Scenarios(tier string) []engine.Scenario {
 	}
 	for _, ord := range orders {
 		variants = append(variants,
-			variant{"plain-" + ord, append(base(ord), "logout"), "", false},
-			variant{"totp-" + ord, append(base(ord), "totp2fa", "recovery", "logout"), "totp", false},
-			variant{"sms-" + ord, append(base(ord), "sms2fa", "recovery", "logout"), "sms", false},
-			variant{"oauth-" + ord, append(base(ord), "oauth2", "logout"), "", true},
+			variant{"plain-" + ord, append(base(ord), "logout"), "", false, 0},
+			variant{"totp-" + ord, append(base(ord), "totp2fa", "recovery", "logout"), "totp", false, 0},
+			variant{"sms-" + ord, append(base(ord), "sms2fa", "recovery", "logout"), "sms", false, 0},
+			variant{"oauth-" + ord, append(base(ord), "oauth2", "logout"), "", true, 0},
 		)
 	}
 	if tier == "thorough" {
-		variants = append(variants, variant{"sms-totp-lc", append(base("lc"), "sms2fa", "totp2fa", "recovery", "logout"), "totp", false},
-			variant{"totp-sms-lc", append(base("lc"), "totp2fa", "sms2fa", "recovery", "logout"), "sms", false})
+		variants = append(variants, variant{"sms-totp-lc", append(base("lc"), "sms2fa", "totp2fa", "recovery", "logout"), "totp", false, 0},
+			variant{"totp-sms-lc", append(base("lc"), "totp2fa", "sms2fa", "recovery", "logout"), "sms", false, 0})
 	}
+	// LockAfter = 0: a legitimate (if unusual) setting; manual locks must be honoured all the same
+	variants = append(variants, variant{"oauth-lockafter0", append(base("lc"), "oauth2", "logout"), "", true, -1})
 	for _, v := range variants {
 		v := v
 		sc := engine.Scenario{
 			Name: v.name, Depth: depth, Sat: 2 * time.Hour,
-			Cfg: world.Config{Modules: v.mods, RecoverLoginAfter: true, LockAfter: 2, LockWindow: 5 * time.Minute, LockDuration: time.Hour, ProtFail: authboss.RespondRedirect},
+			Cfg: world.Config{Modules: v.mods, RecoverLoginAfter: true, LockAfter: map[int]int{0: 2, -1: -1}[v.after], LockWindow: 5 * time.Minute, LockDuration: time.Hour, ProtFail: authboss.RespondRedirect},
 			Init: func(s *world.Stack) *world.World {
 				w := world.NewWorld("B1", "B2")
 				l := flows.Acct{PID: U1, Password: P1, OTPs: []string{"11111111-22222222-33333333-44444444"}}
@@ -188,7 +191,7 @@ func c03Scenarios(tier string) []engine.Scenario {
 				return w
 			},
 			Monitor: c03Monitor, Cover: c03Cover,
-			Model: c04ModelStep(c04cfg{2, 5 * time.Minute, time.Hour}),
+			Model: c04ModelStep(c04cfg{map[int]int{0: 2, -1: 1}[v.after], 5 * time.Minute, time.Hour}),
 		}
 		sc.Actions = func(s *world.Stack, w *world.World) []engine.Action {
 			var a []engine.Action
@@ -246,6 +249,9 @@ func c03Scenarios(tier string) []engine.Scenario {
 				// and with that load failing: a backend failure must not open the route
 				a = append(a, simple("guard(B1)", func(s *world.Stack) world.Req { return flows.Guard(b) }))
 				a = append(a, flows.AFault("guard(B1)", "db.Load", func(s *world.Stack, _ *world.World) world.Req { return flows.Guard(b) }))
+				// the pages the middlewares redirect to, when they are behind the middlewares themselves
+				a = append(a, simple("guard(B1,at=ConfirmNotOK)", func(s *world.Stack) world.Req { return flows.GuardAt(b, s.AB.Config.Paths.ConfirmNotOK) }))
+				a = append(a, simple("guard(B1,at=LockNotOK)", func(s *world.Stack) world.Req { return flows.GuardAt(b, s.AB.Config.Paths.LockNotOK) }))
 			}
 			a = append(a, simple("logout(B1)", func(s *world.Stack) world.Req { return flows.Logout(s, b) }))
 			// B2: another client failing logins against L, and probing
